@@ -971,6 +971,15 @@ func (g *alignGen) random(n int, mk func(alpha []byte) poolMat) {
 // for lengths <= 40 only (576-entry association lists are slow to search).
 func shippedCases(c *Ctx, n int) {
 	prot := []byte(proteinAlphabet)
+	// Levenshtein on UTF-8 text: every 2-byte sequence of U+0080..U+00FF (C2 80 .. C3 BF)
+	// against an ASCII string and against its neighbour: byte strings that happen to
+	// be multi-byte characters must be treated as bytes (rune/byte confusions show here)
+	for r := 0x80; r <= 0xff; r++ {
+		ch := []byte(string(rune(r)))
+		other := []byte(string(rune(0x80 + (r-0x80+1)%0x80)))
+		c.Run(kAlignShipped, L(S("lev"), B(append([]byte("a"), ch...)), B([]byte("ab"))), true, "shipped/lev", "shipped/utf8-text")
+		c.Run(kAlignShipped, L(S("lev"), B(append(append([]byte{}, ch...), other...)), B(append(append([]byte{}, other...), ch...))), true, "shipped/lev", "shipped/utf8-text")
+	}
 	for i := 0; i < n; i++ {
 		name := shippedNames[i%len(shippedNames)]
 		alpha := prot
